@@ -3,7 +3,7 @@
 import json, os, sys
 VERIF = os.path.dirname(os.path.dirname(os.path.abspath(__file__)))
 sys.path.insert(0, os.path.join(VERIF, "tools"))
-from registry import CHECKS, PENDING_REASON, NOT_APPLICABLE  # noqa
+from registry import CHECKS, PENDING_REASON, NOT_APPLICABLE, CLAIMED  # noqa
 
 props = [json.loads(l) for l in open(os.path.join(VERIF, "properties.jsonl"))]
 checks = []
@@ -11,7 +11,7 @@ na = []
 for p in props:
     pid = p["id"]
     c = CHECKS.get(pid)
-    if c and c.get("claimed", True):
+    if c and pid in CLAIMED:
         checks.append({
             "property_id": pid,
             "quick_cmd": "python3 tools/run_check.py %s --tier quick" % pid,
